@@ -23,7 +23,8 @@ EXPLANATION = (
     "orders [1-9][0-9]*, alternatives are ordered longest first, the pattern is anchored at both ends of the "
     "string (\\Z, not $), and the printers emit exactly the fields the parser fills."
 )
-TECHNIQUE = "static analysis: reader/writer slice-layout agreement, getter/setter inverse-chain comparison over a table of inverse pairs, regex-AST grammar check"
+EXACTNESS = "Second pass (DESIGN.md §10, exactness / completeness halves) — URL printer and parser assembly, envelope readers / writers return the object / bytes on every path, legacy dispatch by first byte, `Fee.update` validator; full forbidden character set of names, legacy v1 unsigned-payload order, TagList normalisation."
+TECHNIQUE = "static analysis: reader/writer slice-layout agreement, getter/setter inverse-chain comparison over a table of inverse pairs, regex-AST grammar check; exact fact-set comparison of the tests dominating each effect and refusal (effect / refusal tables), fall-through path queries"
 NOT_DECIDED = "equality of an object with its re-parse, protobuf field semantics, field mapping of the two legacy decoders, 'prints back to the same URL' beyond the canonical form"
 ASSUMPTIONS = ["protobuf message fields store what is assigned to them"]
 
